@@ -4,6 +4,9 @@ package main
 
 import (
 	"encoding/json"
+	"time"
+
+	"github.com/tinode/chat/pbx"
 
 	"github.com/tinode/chat/server/store/types"
 )
@@ -49,5 +52,119 @@ func Harness_C20_grpc_ctrl_params() {
 		verifAssert(ctrl.GetId() == r.Ctrl.Id && ctrl.GetTopic() == r.Ctrl.Topic && int(ctrl.GetCode()) == r.Ctrl.Code && ctrl.GetText() == r.Ctrl.Text, "ctrl-fields-carried")
 		verifAssert(len(ctrl.GetParams()) == want, "ctrl-params-carried-in-the-protobuf-rendering")
 	}
+	verifReach("end")
+}
+
+// C20 (gRPC rendering of the other replies): "every reply field that the protobuf schema defines carries the
+// same value as in the JSON rendering". The JSON rendering is the struct itself (encoding/json by field tags),
+// so each protobuf field is compared with the struct field it corresponds to, for arbitrary numbers, short
+// arbitrary strings and every value of the enumerated fields; payload bytes go through the tagging stub.
+func verifSmallStr(name string) string { return verifNondetString(name, 0, 2, "ab1") }
+
+func verifI31(name string) int {
+	v := verifNondetInt(name)
+	verifAssume(v >= 0 && v < 1<<31)
+	return v
+}
+
+var verifJSONPresWhat = []string{"on", "off", "ua", "upd", "gone", "acs", "term", "msg", "read", "recv", "del", "tags"}
+
+func Harness_C20_grpc_reply_fields() {
+	ts := time.Unix(1700000000, 123000000).UTC()
+	ts2 := time.Unix(1700000100, 456000000).UTC()
+	ms := func(t time.Time) int64 { return t.UnixNano() / 1000000 }
+	switch verifChoose("kind", 5) {
+	case 0: // {data}
+		d := &MsgServerData{Topic: verifSmallStr("topic"), From: verifSmallStr("from"), Timestamp: ts, SeqId: verifI31("seq"),
+			Head: map[string]any{"mime": "text/x-drafty"}, Content: "hello"}
+		if verifNondetBool("deleted") {
+			d.DeletedAt = &ts2
+		}
+		p := pbServSerialize(&ServerComMessage{Data: d}).GetData()
+		verifAssert(p != nil, "data-rendered")
+		verifAssert(p.GetTopic() == d.Topic && p.GetFromUserId() == d.From && int(p.GetSeqId()) == d.SeqId, "data-scalars-carried")
+		verifAssert(p.GetTimestamp() == ms(ts) && (p.GetDeletedAt() != 0) == (d.DeletedAt != nil) && (d.DeletedAt == nil || p.GetDeletedAt() == ms(ts2)), "data-timestamps-carried")
+		verifAssert(len(p.GetHead()) == 1 && len(p.GetContent()) > 0, "data-head-and-content-carried")
+	case 1: // {pres}
+		w := verifChoose("what", len(verifJSONPresWhat))
+		pr := &MsgServerPres{Topic: verifSmallStr("topic"), Src: verifSmallStr("src"), What: verifJSONPresWhat[w], UserAgent: verifSmallStr("ua"),
+			SeqId: verifI31("seq"), DelId: verifI31("del"), AcsTarget: verifSmallStr("tgt"), AcsActor: verifSmallStr("act"),
+			DelSeq: []MsgDelRange{{LowId: 3, HiId: 9}, {LowId: 11}}}
+		if verifNondetBool("withAcs") {
+			pr.Acs = &MsgAccessMode{Want: "JRW", Given: "JRWP"}
+		}
+		p := pbServSerialize(&ServerComMessage{Pres: pr}).GetPres()
+		verifAssert(p != nil, "pres-rendered")
+		back := pbServDeserialize(pbServSerialize(&ServerComMessage{Pres: pr}))
+		verifAssert(back.Pres != nil && back.Pres.What == pr.What, "pres-what-carried")
+		verifAssert(p.GetTopic() == pr.Topic && p.GetSrc() == pr.Src && p.GetUserAgent() == pr.UserAgent && int(p.GetSeqId()) == pr.SeqId &&
+			int(p.GetDelId()) == pr.DelId && p.GetTargetUserId() == pr.AcsTarget && p.GetActorUserId() == pr.AcsActor, "pres-scalars-carried")
+		verifAssert(len(p.GetDelSeq()) == 2 && p.GetDelSeq()[0].GetLow() == 3 && p.GetDelSeq()[0].GetHi() == 9 && p.GetDelSeq()[1].GetLow() == 11, "pres-ranges-carried")
+		verifAssert((p.GetAcs() != nil) == (pr.Acs != nil) && (pr.Acs == nil || (p.GetAcs().GetWant() == "JRW" && p.GetAcs().GetGiven() == "JRWP")), "pres-acs-carried")
+	case 2: // {info}
+		what := []string{"kp", "read", "recv", "call"}[verifChoose("what", 4)]
+		ev := []string{"", "accept", "answer", "hang-up", "ice-candidate", "invite", "offer", "ringing"}[verifChoose("event", 8)]
+		in := &MsgServerInfo{Topic: verifSmallStr("topic"), Src: verifSmallStr("src"), From: verifSmallStr("from"), What: what, SeqId: verifI31("seq"), Event: ev, Payload: []byte("pl")}
+		pk := pbServSerialize(&ServerComMessage{Info: in})
+		p := pk.GetInfo()
+		verifAssert(p != nil, "info-rendered")
+		back := pbServDeserialize(pk)
+		verifAssert(back.Info != nil && back.Info.What == what && back.Info.Event == ev, "info-what-and-event-carried")
+		verifAssert(p.GetTopic() == in.Topic && p.GetSrc() == in.Src && p.GetFromUserId() == in.From && int(p.GetSeqId()) == in.SeqId && string(p.GetPayload()) == "pl", "info-scalars-carried")
+	case 3: // {meta sub}
+		sub := MsgTopicSub{Online: verifNondetBool("online"), Acs: MsgAccessMode{Want: "JRW", Given: "JRWPA", Mode: "JRW"},
+			ReadSeqId: verifI31("read"), RecvSeqId: verifI31("recv"), Public: "pub", Private: "priv",
+			User: verifSmallStr("user"), Topic: verifSmallStr("topic"), SeqId: verifI31("seq"), DelId: verifI31("clear")}
+		if verifNondetBool("stamps") {
+			sub.UpdatedAt, sub.TouchedAt = &ts, &ts2
+		}
+		if verifNondetBool("seen") {
+			sub.LastSeen = &MsgLastSeenInfo{When: &ts2, UserAgent: "ua1"}
+		}
+		m := pbServSerialize(&ServerComMessage{Meta: &MsgServerMeta{Id: "m1", Topic: "me", Sub: []MsgTopicSub{sub}}}).GetMeta()
+		verifAssert(m != nil && m.GetId() == "m1" && m.GetTopic() == "me" && len(m.GetSub()) == 1, "meta-rendered")
+		p := m.GetSub()[0]
+		verifAssert(p.GetOnline() == sub.Online && int(p.GetReadId()) == sub.ReadSeqId && int(p.GetRecvId()) == sub.RecvSeqId, "sub-marks-carried")
+		verifAssert(p.GetUserId() == sub.User && p.GetTopic() == sub.Topic, "sub-names-carried")
+		verifAssert(int(p.GetSeqId()) == sub.SeqId && int(p.GetDelId()) == sub.DelId, "sub-counters-carried")
+		verifAssert(p.GetAcs().GetWant() == "JRW" && p.GetAcs().GetGiven() == "JRWPA", "sub-acs-carried")
+		verifAssert(len(p.GetPublic()) > 0 && len(p.GetPrivate()) > 0 && len(p.GetTrusted()) == 0, "sub-payloads-carried")
+		if sub.UpdatedAt != nil {
+			verifAssert(p.GetUpdatedAt() == ms(ts) && p.GetTouchedAt() == ms(ts2), "sub-timestamps-carried")
+		} else {
+			verifAssert(p.GetUpdatedAt() == 0 && p.GetTouchedAt() == 0, "sub-timestamps-carried")
+		}
+		if sub.LastSeen != nil {
+			verifAssert(p.GetLastSeenTime() == ms(ts2) && p.GetLastSeenUserAgent() == "ua1", "sub-last-seen-carried")
+		}
+	case 4: // {meta desc/del/tags}
+		desc := &MsgTopicDesc{CreatedAt: &ts, UpdatedAt: &ts2, State: verifSmallStr("state"), Online: verifNondetBool("online"), IsChan: verifNondetBool("chan"),
+			DefaultAcs: &MsgDefaultAcsMode{Auth: "JRWPS", Anon: "N"}, Acs: &MsgAccessMode{Want: "JR", Given: "JRW"},
+			SeqId: verifI31("seq"), ReadSeqId: verifI31("read"), RecvSeqId: verifI31("recv"), DelId: verifI31("clear"), Public: "pub"}
+		meta := &MsgServerMeta{Id: "m2", Topic: "grpAAAAAAAAAAB", Desc: desc, Tags: []string{"a", "b"},
+			Del: &MsgDelValues{DelId: verifI31("delid"), DelSeq: []MsgDelRange{{LowId: 1, HiId: 4}}}}
+		m := pbServSerialize(&ServerComMessage{Meta: meta}).GetMeta()
+		verifAssert(m != nil && m.GetDesc() != nil, "meta-desc-rendered")
+		p := m.GetDesc()
+		verifAssert(p.GetCreatedAt() == ms(ts) && p.GetUpdatedAt() == ms(ts2) && p.GetTouchedAt() == 0, "desc-timestamps-carried")
+		verifAssert(p.GetState() == desc.State && p.GetOnline() == desc.Online && p.GetIsChan() == desc.IsChan, "desc-flags-carried")
+		verifAssert(int(p.GetSeqId()) == desc.SeqId && int(p.GetReadId()) == desc.ReadSeqId && int(p.GetRecvId()) == desc.RecvSeqId && int(p.GetDelId()) == desc.DelId, "desc-counters-carried")
+		verifAssert(p.GetDefacs().GetAuth() == "JRWPS" && p.GetDefacs().GetAnon() == "N" && p.GetAcs().GetWant() == "JR" && p.GetAcs().GetGiven() == "JRW", "desc-access-carried")
+		verifAssert(len(m.GetTags()) == 2 && m.GetTags()[0] == "a" && m.GetTags()[1] == "b", "tags-carried")
+		verifAssert(int(m.GetDel().GetDelId()) == meta.Del.DelId && len(m.GetDel().GetDelSeq()) == 1 && m.GetDel().GetDelSeq()[0].GetLow() == 1 && m.GetDel().GetDelSeq()[0].GetHi() == 4, "deletion-log-carried")
+	}
+	verifReach("end")
+}
+
+// Timestamps in gRPC requests are milliseconds: the if-modified-since of a {get}/{sub} names the same instant as the
+// JSON text it stands for.
+func Harness_C20_grpc_request_timestamp() {
+	millis := []int64{0, 1, 123, 999}[verifChoose("millis", 4)]
+	want := time.Unix(1700000000, millis*1000000).UTC()
+	stamp := want.UnixNano() / 1000000
+	q := pbGetQueryDeserialize(&pbx.GetQuery{What: "desc sub", Desc: &pbx.GetOpts{IfModifiedSince: stamp}, Sub: &pbx.GetOpts{IfModifiedSince: stamp, Limit: 5}})
+	verifAssert(q != nil && q.Desc != nil && q.Sub != nil && q.Desc.IfModifiedSince != nil && q.Sub.IfModifiedSince != nil, "options-deserialized")
+	verifAssert(q.Desc.IfModifiedSince.Equal(want) && q.Sub.IfModifiedSince.Equal(want), "if-modified-since-names-the-same-instant-as-in-json")
+	verifAssert(q.Sub.Limit == 5, "limit-as-in-json")
 	verifReach("end")
 }
